@@ -242,6 +242,11 @@ fn run(ctx: &Ctx, rep: &Report) {
         let mut rng = Rng::for_case(ctx.seed, "C01-built", i);
         let mut cfg = gen_cfg(&mut rng, &GenOpts { all_levels: false, ..Default::default() });
         cfg.large_files = i % 7 == 6;
+        if i % 60 == 0 {
+            // a payload well above a MiB (the file-based API below is applied to it: i % 3 == 0)
+            cfg.compression = Some(([("none", 0i64), ("zstd", 1), ("gzip", 1)][(i / 60 % 3) as usize].0.into(), 1));
+            cfg.files.push(FileCfg { dest: format!("/opt/big/blob{i}.bin"), content_kind: "noise".into(), size: 1_200_000 + rng.usize(400_000), content_seed: rng.next(), mode: Some(0o100644), source_perm: 0o644, user: None, group: None, flags: vec![], caps: None, symlink: None, mtime: 1_500_000_000, verify: None });
+        }
         let dir = base.join(format!("c{i}"));
         if let Ok(items) = built_items(&cfg, &dir, &keys, &mut rng, i % 4 == 0) {
             // the file-based API must agree with the in-memory one (write_file / open)
